@@ -112,11 +112,20 @@ def vc_intersect(ctx):
     facts = ctx.facts
     body = ctx.inherent(VCLOCK, 'intersection')
     it = interp(facts, body)
-    ins = [(bb, c) for bb, c in it.calls.items() if call_name(c.term) == 'insert' and len(c.args) == 3]
+    ins = []
+    for bb_, c_ in it.calls.items():
+        if call_name(c_.term) != 'insert':
+            continue
+        if len(c_.args) == 3:
+            ins.append((bb_, c_, c_.args[1].val, c_.args[2].val))
+        elif len(c_.args) == 2:  # collected from an iterator of pairs
+            tv = drop_lv(c_.args[1].val)
+            if tv[0] == 'tuple' and len(tv[1]) == 2:
+                ins.append((bb_, c_, tv[1][0], tv[1][1]))
     if not ins:
         ctx.fail('intersection', body, 'nothing is ever inserted into the result')
         return
-    bb, c = ins[0]
+    bb, c, ins_k, ins_v = ins[0]
     fr = iteration_frame(it, bb)
     found = []
 
@@ -147,7 +156,7 @@ def vc_intersect(ctx):
     base = iter_source(src)[0] if src is not None else None
     pb = param_path(base) if base is not None else None
     sides_ok = pc is not None and pb is not None and {pc[0], pb[0]} == {1, 2} and not (set(iter_adaptors(src)) & LOSSY_ADAPTORS)
-    val_ok = versionless(c.args[1].val) == g['k'] and versionless(c.args[2].val) == g['v']
+    val_ok = versionless(ins_k) == g['k'] and versionless(ins_v) == g['v']
     retv = drop_lv(it.ret)
     ret_ok = retv[0] == 'agg' and retv[1] == VCLOCK
     errs = []
@@ -180,7 +189,7 @@ def vc_glb(ctx):
         if call_name(c.term) not in ('filter_map', 'retain'):
             continue
         for clo, mapping in closure_bindings(c.term):
-            cb = facts.by_uid.get(clo[1])
+            cb = facts.cb(clo[1])
             if cb is None:
                 continue
             cit = interp(facts, cb)
@@ -201,23 +210,38 @@ def vc_glb(ctx):
                                 mins.append(t)
                                 return 'min'
                 return None
-            none_s = ret_sites_by(cit, lambda v: is_variant(v, 'option::Option', 'None'))
-            some_s = ret_sites_by(cit, lambda v: is_variant(v, 'option::Option', 'Some'))
             res = {}
-            for val in (0, 7):
-                rc = Reach(facts, cb, Evaluator(facts, bool_atom=atom, assumption={'min': val}))
-                res[val] = (any(b in rc.reachable for b, _ in none_s), any(b in rc.reachable for b, _ in some_s))
+            if call_name(c.term) == 'retain':
+                # in-place form: the closure returns keep?, and overwrites the counter through its &mut parameter
+                item = ('item', c.term[2][0])
+                src_ok = whole_iteration_over(c.term[2][0], 1, ('dots',))
+                for val in (0, 7):
+                    ev = Evaluator(facts, bool_atom=atom, assumption={'min': val})
+                    r_ = ev.ev(cit.ret)
+                    res[val] = (r_ is not True, r_ is not False)
+                wr = [(k_[0], w) for k_, w in cit.writes.items() if w.loc[0] == ('P', 3) and not w.loc[1]]
+            else:
+                none_s = ret_sites_by(cit, lambda v: is_variant(v, 'option::Option', 'None'))
+                some_s = ret_sites_by(cit, lambda v: is_variant(v, 'option::Option', 'Some'))
+                for val in (0, 7):
+                    rc = Reach(facts, cb, Evaluator(facts, bool_atom=atom, assumption={'min': val}))
+                    res[val] = (any(b in rc.reachable for b, _ in none_s), any(b in rc.reachable for b, _ in some_s))
             det = {'min -> (drop may, keep may)': res}
             if not mins:
                 ctx.fail('glb', cb, 'the kept counter is not min(own counter, other.get(actor))', line=cb.line, details=det)
                 done = True
                 continue
             kept_ok = False
-            for b2, v in some_s:
-                tup = v[3][0][1]
-                if tup[0] == 'tuple' and len(tup[1]) == 2 and drop_lv(tup[1][1]) in [drop_lv(m) for m in mins] \
-                        and versionless(subst(tup[1][0], mapping)) == ('field', versionless(item), '0'):
-                    kept_ok = True
+            if call_name(c.term) == 'retain':
+                rc7 = Reach(facts, cb, Evaluator(facts, bool_atom=atom, assumption={'min': 7}))
+                good = [b_ for b_, w in wr if drop_lv(w.val) in [drop_lv(m) for m in mins]]
+                kept_ok = bool(good) and len(good) == len(wr) and rc7.must_pass(good)
+            else:
+                for b2, v in some_s:
+                    tup = v[3][0][1]
+                    if tup[0] == 'tuple' and len(tup[1]) == 2 and drop_lv(tup[1][1]) in [drop_lv(m) for m in mins] \
+                            and versionless(subst(tup[1][0], mapping)) == ('field', versionless(item), '0'):
+                        kept_ok = True
             errs = []
             if res[0][1] or not res[0][0]:
                 errs.append('an entry whose minimum is 0 is kept (a zero counter is stored)')
@@ -236,7 +260,9 @@ def vc_glb(ctx):
         ctx.shape('glb', body, 'no filter over self.dots computing the pointwise minimum')
     else:
         # result stored back
-        stored = any(loc_target(it, w.loc) and loc_target(it, w.loc)[:2] == (1, ('dots',)) and w.kind == 'assign' for w in it.writes.values())
+        stored = any(loc_target(it, w.loc) and loc_target(it, w.loc)[:2] == (1, ('dots',)) and w.kind == 'assign' for w in it.writes.values()) \
+            or any(loc_target(it, w.loc) and loc_target(it, w.loc)[:2] == (1, ('dots',)) and w.kind == 'call'
+                   and w.val[0] == 'post' and call_name(w.val[1]) == 'retain' for w in it.muts.values())
         if not stored:
             ctx.fail('glb/store', body, 'the filtered entries are not stored back into self.dots')
 
@@ -295,17 +321,9 @@ def vc_inc(ctx):
     facts = ctx.facts
     body = ctx.inherent(VCLOCK, 'inc')
     it = interp(facts, body)
-    t = expand_all(facts, it.ret, stop=('VClock::get',))
-    t = drop_lv(t)
-    ok = False
-    if t[0] == 'agg' and t[1] == DOT:
-        f = dict(t[3])
-        a, c = versionless(f.get('actor', ('undef',))), f.get('counter', ('undef',))
-        if a == ('param', 2) and c[0] == 'binop' and c[1] == 'Add':
-            ops = [c[2], c[3]]
-            one = [o for o in ops if o[0] == 'const' and o[1] == 1]
-            get = [o for o in ops if is_call(o, 'get', self_adt='VClock') and versionless(o[2][0]) == ('param', 1) and versionless(o[2][1]) == ('param', 2)]
-            ok = bool(one and get)
+    nd = next_dot_of(facts, it.ret)
+    ok = nd == (('param', 1), ('param', 2))
+    t = normal(facts, it.ret)
     ctx.check(ok, 'inc', body, 'inc(actor) = Dot{actor, get(actor)+1}', 'VClock::inc(actor) is %s, expected Dot{actor, self.get(actor)+1}' % fmt(t),
               details={'summary': fmt(t)})
 
@@ -349,44 +367,42 @@ def vc_pcmp(ctx):
     scans = {}
 
     def scan_kind(t):
-        """`all(iter(X.dots), |(k, v)| Y.get(k) >= v)`  ->  'ge' when X = other (self dominates) / 'le' when X = self."""
-        if not is_call(t, 'all') or len(t[2]) != 2:
+        """t is (the negation of) a pointwise dominance scan `for all (k, v) in X.dots: Y.get(k) >= v`
+        -> 'ge' when X = other (self dominates) / 'le' when X = self, possibly ('not', kind)."""
+        q = quant(facts, t)
+        if q is None:
             return None
-        for clo, mapping in closure_bindings(t):
-            cb = facts.by_uid.get(clo[1])
-            if cb is None:
-                return None
-            cit = interp(facts, cb)
-            item = mapping.get(('param', 2))
-            if item is None:
-                return None
-            base = iter_source(item[1])[0]
-            pb = param_path(base)
-            if not pb or pb[1][-1:] != ('dots',) or set(iter_adaptors(item[1])) & LOSSY_ADAPTORS:
-                return None
-            got = []
+        base = iter_source(q['src'])[0]
+        pb = param_path(base)
+        if not pb or pb[1][-1:] != ('dots',) or set(iter_adaptors(q['src'])) & LOSSY_ADAPTORS:
+            return None
+        item = q['m'].get(('param', 2))
+        if item is None:
+            return None
+        got = []
 
-            def classify(a, b, tt, mapping=mapping):
-                sa, sb = subst(a, mapping), subst(b, mapping)
-                for x, y, orient in ((sa, sb, 'fwd'), (sb, sa, 'rev')):
-                    if is_call(x, 'get', self_adt='VClock') and len(x[2]) == 2:
-                        k, v = versionless(x[2][1]), versionless(y)
-                        pc = param_path(x[2][0])
-                        if k == ('field', versionless(item), '0') and v == ('field', versionless(item), '1') and pc:
-                            got.append(pc[0])
-                            return ('p', orient)
-                return None
-            truth = {}
-            for o in TOTAL:
-                evr = Evaluator(facts, classify=classify, assumption={'p': o})
-                truth[o] = evr.ev(cit.ret)
-            if not got or got[0] == pb[0]:
-                return None
-            ctx.analysed.add(cb.key)
-            if truth == {LT: False, EQ: True, GT: True}:
-                return 'ge' if pb[0] == 2 else 'le'
-            scans.setdefault('bad', []).append((cb, truth))
+        def classify(a, b, tt):
+            for x, y, orient in ((a, b, 'fwd'), (b, a, 'rev')):
+                if is_call(x, 'get', self_adt='VClock') and len(x[2]) == 2:
+                    k, v = versionless(x[2][1]), versionless(y)
+                    pc = param_path(x[2][0])
+                    if k == ('field', versionless(item), '0') and v == ('field', versionless(item), '1') and pc:
+                        got.append(pc[0])
+                        return ('p', orient)
             return None
+        truth, hit = pred_truth(facts, q, classify, TOTAL, 'p')
+        if not got or got[0] == pb[0]:
+            return None
+        ctx.analysed.add(q['cb'].key)
+        ge = {LT: False, EQ: True, GT: True}
+        lt = {LT: True, EQ: False, GT: False}
+        kind = 'ge' if pb[0] == 2 else 'le'
+        # value = neg XOR quantified(P):  forall ge -> scan ; exists lt -> not scan
+        if q['kind'] == 'forall' and truth == ge:
+            return ('not', kind) if q['neg'] else kind
+        if q['kind'] == 'exists' and truth == lt:
+            return kind if q['neg'] else ('not', kind)
+        scans.setdefault('bad', []).append((q['cb'], truth))
         return None
 
     def atom(t):
@@ -396,7 +412,7 @@ def vc_pcmp(ctx):
                 return 'eq'
         k = scan_kind(t)
         if k:
-            scans[k] = True
+            scans[k[1] if isinstance(k, tuple) else k] = True
             return k
         return None
     kinds = {
@@ -478,8 +494,17 @@ def dot_pcmp(ctx):
                 return 'same' if cinfo(t[1])['name'] == 'eq' else ('not', 'same')
         return None
     none_s = ret_sites_by(it, lambda v: is_variant(v, 'option::Option', 'None'))
-    cmp_s = ret_sites_by(it, lambda v: is_call(v, 'partial_cmp') and versionless(v[2][0]) == ('field', ('param', 1), 'counter')
-                         and versionless(v[2][1]) == ('field', ('param', 2), 'counter'))
+    def is_counter_cmp(v):
+        if is_variant(v, 'option::Option', 'Some'):  # Some(a.cmp(&b)) == a.partial_cmp(&b) for the total order on u64
+            v = drop_lv(v[3][0][1])
+            if not is_call(v, 'cmp'):
+                return False
+        elif not is_call(v, 'partial_cmp'):
+            return False
+        return len(v[2]) == 2 and versionless(v[2][0]) == ('field', ('param', 1), 'counter') \
+            and versionless(v[2][1]) == ('field', ('param', 2), 'counter')
+    cmp_s = ret_sites_by(it, is_counter_cmp)
+    none_s = [(b, v) for b, v in none_s if (b, v) not in cmp_s]
     res = {}
     for same in (True, False):
         rc = Reach(facts, body, Evaluator(facts, bool_atom=atom, assumption={'same': same}))
